@@ -123,43 +123,47 @@ Proof.
   - apply IH; assumption.
 Qed.
 
+Section WithOracle.
+Variable orc : Z -> Z -> str -> option Z.
+
 (* ---------- exact or error, never wrapped *)
 Theorem convert_exact e s dest x : entry_ok e = true -> int_fam e = true ->
-  convert e s dest = (x, false) -> parse (fam e) (bits e) s = Some x.
+  convert orc e s dest = (x, false) -> parse orc (fam e) (bits e) s = Some x.
 Proof.
   unfold entry_ok, int_fam, convert. intros Hok Hf H.
   apply andb_true_iff in Hok as [Hok H4]. apply andb_true_iff in Hok as [Hok H3]. apply andb_true_iff in Hok as [H1 H2].
   apply Z.eqb_eq in H1, H2. apply Z.ltb_lt in H3.
-  destruct (parse (fam e) (bits e) s) as [n|] eqn:Ep; [|inversion H].
+  destruct (parse orc (fam e) (bits e) s) as [n|] eqn:Ep; [|inversion H].
   apply Z.ltb_lt in H3. rewrite H3 in H. inversion H; subst. f_equal. apply Z.ltb_lt in H3.
   unfold parse in Ep. unfold wrap. destruct (fam e =? 0) eqn:Ef.
   - apply parse_int_exact in Ep as [_ Hr]. rewrite H1 in Hr. symmetry. apply wrap_s_id; assumption.
-  - apply parse_uint_exact in Ep as [_ Hr]. rewrite H1 in Hr. symmetry. apply wrap_u_id; assumption.
+  - destruct (fam e =? 1) eqn:E1; [|rewrite ?Ef in Hf; simpl in Hf; discriminate].
+    apply parse_uint_exact in Ep as [_ Hr]. rewrite H1 in Hr. symmetry. apply wrap_u_id; assumption.
 Qed.
 
-Theorem convert_error_unchanged e s dest x : convert e s dest = (x, true) -> x = dest.
-Proof. unfold convert. destruct (parse _ _ s); intro H; inversion H; reflexivity. Qed.
+Theorem convert_error_unchanged e s dest x : convert orc e s dest = (x, true) -> x = dest.
+Proof. unfold convert. destruct (parse _ _ _ s); intro H; inversion H; reflexivity. Qed.
 
-Theorem scalar_error_unchanged e v dest x : scalar_call e v dest = (x, true) -> x = dest.
+Theorem scalar_error_unchanged e v dest x : scalar_call orc e v dest = (x, true) -> x = dest.
 Proof. unfold scalar_call. destruct v; [intro H; inversion H; reflexivity|apply convert_error_unchanged]. Qed.
 
 Theorem scalar_exact e v dest x : entry_ok e = true -> int_fam e = true -> v <> [] ->
-  scalar_call e v dest = (x, false) -> parse (fam e) (bits e) v = Some x.
+  scalar_call orc e v dest = (x, false) -> parse orc (fam e) (bits e) v = Some x.
 Proof. intros Hok Hf Hne. unfold scalar_call. destruct v; [congruence|]. apply convert_exact; assumption. Qed.
 
-Theorem scalar_absent e dest : scalar_call e [] dest = (dest, must e).
+Theorem scalar_absent e dest : scalar_call orc e [] dest = (dest, must e).
 Proof. reflexivity. Qed.
 
-Theorem slice_error_unchanged e ff had vs dest x : slice_call e ff had vs dest = (x, true) -> x = dest.
+Theorem slice_error_unchanged e ff had vs dest x : slice_call orc e ff had vs dest = (x, true) -> x = dest.
 Proof. unfold slice_call. destruct vs as [|v0 vr]; [intro H; inversion H; reflexivity|].
-  destruct (fill e ff (v0 :: vr)) as [tmp err]. destruct (had || err); intro H; inversion H; reflexivity. Qed.
+  destruct (fill orc e ff (v0 :: vr)) as [tmp err]. destruct (had || err); intro H; inversion H; reflexivity. Qed.
 
 Lemma fill_exact e : entry_ok e = true -> int_fam e = true -> forall vs xs,
-  fill e false vs = (xs, false) -> map (parse (fam e) (bits e)) vs = map Some xs.
+  fill orc e false vs = (xs, false) -> map (parse orc (fam e) (bits e)) vs = map Some xs.
 Proof.
   intros Hok Hf. induction vs as [|v r IH]; intros xs H; simpl in H; [inversion H; reflexivity|].
-  destruct (convert e v 0) as [x err] eqn:Ec. rewrite andb_false_r in H.
-  destruct (fill e false r) as [xs' errs] eqn:Ef. inversion H; subst.
+  destruct (convert orc e v 0) as [x err] eqn:Ec. rewrite andb_false_r in H.
+  destruct (fill orc e false r) as [xs' errs] eqn:Ef. inversion H; subst.
   apply orb_false_iff in H2 as [-> ->]. simpl. rewrite (convert_exact e v 0 x Hok Hf Ec). f_equal. apply IH. reflexivity.
 Qed.
 
@@ -167,14 +171,14 @@ Qed.
 Definition initial (c : call) : dest_val :=
   match c with CScalar _ _ d => DScalar d | CSlice _ _ d => DSlice d end.
 
-Theorem failfast_nothing_after_error : forall cs, chain true true cs = (map initial cs, true).
+Theorem failfast_nothing_after_error : forall cs, chain orc true true cs = (map initial cs, true).
 Proof. induction cs as [|c r IH]; [reflexivity|]. cbn [chain]. cbn [andb].
   destruct c; cbn [orb initial map]; rewrite IH; reflexivity. Qed.
 
 (* ---------- struct binding *)
 Theorem bind_kind_exact k v dest x f b w : find_kind bind_kinds k = Some (f, b, w) -> (f = 0 \/ f = 1) ->
-  bind_kind k v dest = Some (x, false) ->
-  parse f b (match v with [] => lit "0" | _ => v end) = Some x.
+  bind_kind orc k v dest = Some (x, false) ->
+  parse orc f b (match v with [] => zero_text f | _ => v end) = Some x.
 Proof.
   intros Hk Hf H. unfold bind_kind in H. rewrite Hk in H.
   assert (Hok : eff b = w /\ 0 < w).
@@ -186,8 +190,46 @@ Proof.
     destruct Hin as [Hin|[k' Hin]]; specialize (K _ Hin); cbv beta iota in K;
       apply andb_true_iff in K as [K1 K2]; apply Z.eqb_eq in K1; apply Z.ltb_lt in K2; auto. }
   destruct Hok as [He Hw].
-  destruct (parse f b _) as [n|] eqn:Ep; [|inversion H]. inversion H; subst x. f_equal.
-  unfold parse in Ep. unfold wrap. destruct Hf as [-> | ->]; cbn [Z.eqb] in *.
+  destruct (parse orc f b _) as [n|] eqn:Ep; [|inversion H]. inversion H; subst x. f_equal.
+  unfold parse in Ep. unfold wrap. destruct Hf as [-> | ->]; cbn [Z.eqb Pos.eqb] in *.
   - apply parse_int_exact in Ep as [_ Hr]. rewrite He in Hr. symmetry. apply wrap_s_id; assumption.
   - apply parse_uint_exact in Ep as [_ Hr]. rewrite He in Hr. symmetry. apply wrap_u_id; assumption.
 Qed.
+
+(* ---------- oracle families (float, bool, duration): exactly what the library parser returned, or an error *)
+Lemma parse_oracle f b s : 2 <= f -> parse orc f b s = orc f b s.
+Proof. intro H. unfold parse. destruct (f =? 0) eqn:E0; [apply Z.eqb_eq in E0; lia|].
+  destruct (f =? 1) eqn:E1; [apply Z.eqb_eq in E1; lia|]. reflexivity. Qed.
+Lemma wrap_oracle f w z : 2 <= f -> wrap f w z = z.
+Proof. intro H. unfold wrap. destruct (f =? 0) eqn:E0; [apply Z.eqb_eq in E0; lia|].
+  destruct (f =? 1) eqn:E1; [apply Z.eqb_eq in E1; lia|]. reflexivity. Qed.
+
+Theorem convert_oracle e s dest x : 0 < cw e -> 2 <= fam e ->
+  convert orc e s dest = (x, false) -> orc (fam e) (bits e) s = Some x.
+Proof.
+  intros Hc Hf. unfold convert. rewrite parse_oracle by exact Hf.
+  destruct (orc (fam e) (bits e) s) as [n|]; [|discriminate].
+  apply Z.ltb_lt in Hc. rewrite Hc, wrap_oracle by exact Hf. intro H; inversion H; reflexivity.
+Qed.
+
+Theorem scalar_oracle e v dest x : 0 < cw e -> 2 <= fam e -> v <> [] ->
+  scalar_call orc e v dest = (x, false) -> orc (fam e) (bits e) v = Some x.
+Proof. intros Hc Hf Hne. unfold scalar_call. destruct v; [congruence|]. apply convert_oracle; assumption. Qed.
+
+Lemma fill_oracle e : 0 < cw e -> 2 <= fam e -> forall vs xs,
+  fill orc e false vs = (xs, false) -> map (orc (fam e) (bits e)) vs = map Some xs.
+Proof.
+  intros Hc Hf. induction vs as [|v r IH]; intros xs H; simpl in H; [inversion H; reflexivity|].
+  destruct (convert orc e v 0) as [x err] eqn:Ec. rewrite andb_false_r in H.
+  destruct (fill orc e false r) as [xs' errs] eqn:Ef. inversion H; subst.
+  apply orb_false_iff in H2 as [-> ->]. simpl. rewrite (convert_oracle e v 0 x Hc Hf Ec). f_equal. apply IH. reflexivity.
+Qed.
+
+Theorem bind_kind_oracle k v dest x f b w : find_kind bind_kinds k = Some (f, b, w) -> 2 <= f ->
+  bind_kind orc k v dest = Some (x, false) ->
+  orc f b (match v with [] => zero_text f | _ => v end) = Some x.
+Proof.
+  intros Hk Hf H. unfold bind_kind in H. rewrite Hk in H. rewrite parse_oracle in H by exact Hf.
+  destruct (orc f b _) as [n|]; [|inversion H]. rewrite wrap_oracle in H by exact Hf. inversion H; reflexivity.
+Qed.
+End WithOracle.
